@@ -243,6 +243,10 @@ Proof.
   - unfold abs. simpl. by rewrite fmap_empty.
   - apply abs_replicate.
   - by destruct (is_open s t).
+  - destruct t as [|t]; [done|]. destruct (is_open s (S t)) eqn:Eo; simpl.
+    + apply abs_abort.
+    + unfold abs. simpl. f_equal. rewrite delete_notin; [done|]. rewrite lookup_fmap.
+      unfold is_open in Eo. apply bool_decide_eq_false in Eo. apply eq_None_not_Some in Eo. by rewrite Eo.
 Qed.
 
 Theorem run_refines ops : forall s,
